@@ -1,0 +1,23 @@
+//go:build verif
+
+package logs
+
+import "github.com/roddhjav/apparmor.d/pkg/util"
+
+func VerifRegex() map[string][][2]string {
+	return map[string][][2]string{
+		"isAppArmorLogTemplate": {{isAppArmorLogTemplate.String(), ""}},
+		"regCleanLogs":          util.VerifList(regCleanLogs),
+		"regResolveLogs":        util.VerifList(regResolveLogs),
+	}
+}
+
+func VerifQuoted() bool { return quoted }
+
+func VerifSetQuoted(v bool) { quoted = v }
+
+func VerifResolve(s string) string { return regResolveLogs.Replace(s) }
+
+func VerifClean(s string) string { return regCleanLogs.Replace(s) }
+
+func VerifToQuote(s string) string { return toQuote(s) }
